@@ -114,6 +114,7 @@ def executions(case: dict[str, Any]) -> Iterator[dict[str, Any]]:
             "out_subdir": rng.random() < 0.2,
             "src_subdir": rng.random() < 0.15,
             "crlf": rng.random() < 0.15,
+            "padded": rng.getrandbits(32) if rng.random() < 0.06 else None,
         }
 
     for m in mappings:
@@ -207,6 +208,16 @@ def run_single(case: dict[str, Any], stats: Stats) -> list[Violation]:
             if name.endswith((".s", ".tbl")):
                 files[name] = files[name].replace(b"\r\n", b"\n").replace(b"\n", b"\r\n")
         stats.bump("probe:crlf_text_files")
+    if case.get("padded"):
+        # a long comment full of multi-byte characters after the first line: the source is longer than any
+        # read buffer / chunk (4, 8, 16, 64 KiB), and characters straddle those boundaries
+        import random as _r0
+
+        pr = _r0.Random(case["padded"])
+        first, nl, rest = files["main.s"].partition(b"\n")
+        pad = "".join("; " + "".join(pr.choice("\u65e5\u672c\u8a9e\u00e9x ") for _ in range(pr.randrange(30, 90))) + "\n" for _ in range(pr.choice([60, 120, 400, 900])))
+        files["main.s"] = first + nl + pad.encode("utf-8") + rest
+        stats.bump("probe:long_source_with_multibyte_characters")
     if case.get("src_subdir"):
         # the main source lives in a sub-directory; its .include/.incbin/.table paths stay relative to the cwd
         files["src dir/main.s"] = files.pop("main.s")
@@ -354,7 +365,7 @@ def sample_of(case: dict[str, Any]) -> Any:
 def shrink_candidates(case: dict[str, Any]) -> Iterator[dict[str, Any]]:
     if case.get("type") != "single":
         return
-    for key, val in (("stale", None), ("abs_paths", False), ("subprocess", False), ("positional_first", True), ("argv_order", None), ("argv_style", None), ("flags", []), ("out_subdir", False), ("src_subdir", False), ("crlf", False)):
+    for key, val in (("stale", None), ("abs_paths", False), ("subprocess", False), ("positional_first", True), ("argv_order", None), ("argv_style", None), ("flags", []), ("out_subdir", False), ("src_subdir", False), ("crlf", False), ("padded", None)):
         if case.get(key) not in (val, None):
             c = dict(case)
             c[key] = val
